@@ -309,10 +309,10 @@ func Progress() { progress.Add(1) }
 // watchdog turns "the exploration exhausts memory" and "the exploration stopped making progress"
 // into a reported violation that names the cases in flight, instead of a killed process without
 // a report. Limits are far away from anything the harnesses need on the unchanged tree:
-// VERIF_MEM_LIMIT_MB (default 12288) of live Go heap (measured after a forced collection), VERIF_STALL_S (default 2400) without a
+// VERIF_MEM_LIMIT_MB (default 40960, three consecutive samples) of live Go heap (measured after a forced collection), VERIF_STALL_S (default 2400) without a
 // finished case, scheduler execution or Eval while a ParallelFor index is in flight.
 func (r *Report) watchdog() {
-	memLimit := uint64(12288) << 20
+	memLimit := uint64(40960) << 20
 	if v, err := strconv.ParseUint(os.Getenv("VERIF_MEM_LIMIT_MB"), 10, 64); err == nil && v > 0 {
 		memLimit = v << 20
 	}
@@ -321,6 +321,7 @@ func (r *Report) watchdog() {
 		stall = time.Duration(v * float64(time.Second))
 	}
 	last, lastChange := progress.Load(), time.Now()
+	overLimit := 0
 	var ms runtime.MemStats
 	for {
 		select {
@@ -333,13 +334,19 @@ func (r *Report) watchdog() {
 		}
 		runtime.ReadMemStats(&ms)
 		if ms.HeapInuse > memLimit {
-			// harnesses may run with the collector throttled or off: only live memory counts
+			// harnesses may run with the collector throttled or off and allocate fast from all CPUs:
+			// collect first, and believe the reading only when it stays above the limit three times
 			runtime.GC()
 			runtime.ReadMemStats(&ms)
 		}
+		if ms.HeapInuse > memLimit {
+			overLimit++
+		} else {
+			overLimit = 0
+		}
 		why := ""
 		switch {
-		case ms.HeapInuse > memLimit:
+		case ms.HeapInuse > memLimit && overLimit >= 3:
 			why = fmt.Sprintf("the Go heap grew to %d MiB (limit %d MiB)", ms.HeapInuse>>20, memLimit>>20)
 		case time.Since(lastChange) > stall:
 			why = fmt.Sprintf("no case finished for %s", time.Since(lastChange).Round(time.Second))
